@@ -37,7 +37,7 @@ Definition exact (t : ty) : Prop := forall b v r, read t b = Ok (v, r) -> wire_s
 
 Lemma exact_scalar t : is_scalar t -> exact t.
 Proof.
-  intros [ -> | [ -> | [ -> | -> ]]] b v r; cbn [read scalar_size];
+  intros [ -> | [ -> | [ -> | -> ]]] b v r; cbn [read scalar_size]; rewrite short_len;
     (match goal with |- context [if ?a <? ?c then _ else _] => destruct (N.ltb_spec a c) as [|Hl] end; [discriminate|]);
     match goal with |- Ok (_, skipn ?k b) = _ -> _ =>
       pose proof (len_skipn b k) as Hs; set (s := skipn k b) in *; clearbody s end;
@@ -210,7 +210,7 @@ Definition nb (t : ty) (c : N) : Prop := forall b v r, read t b = Ok (v, r) -> v
 
 Lemma nb_scalar t : is_scalar t -> nb t 0.
 Proof.
-  intros [ -> | [ -> | [ -> | -> ]]] b v r; cbn [read scalar_size];
+  intros [ -> | [ -> | [ -> | -> ]]] b v r; cbn [read scalar_size]; rewrite short_len;
     (match goal with |- context [if ?a <? ?c then _ else _] => destruct (N.ltb_spec a c) as [|Hl] end; [discriminate|]);
     match goal with |- Ok (_, skipn ?k b) = _ -> _ => set (s := skipn k b) in *; clearbody s end;
     intros [= <- <-]; cbn [vnodes wire_size mem_size scalar_size]; lia.
